@@ -463,7 +463,8 @@ class ClosureSpec(FnContract):
         calls = child_calls(ex)
         pushes = [e for e in ex.events if e[0] == 'push_scope']
         pops = [e for e in ex.events if e[0] == 'pop_scope']
-        ex.prove('C10:LambdaOp.eval.f:pushes-exactly-one-parameter-scope', ['C10', 'C07'], len(pushes) == 1)
+        ex.prove('C10:LambdaOp.eval.f:pushes-exactly-one-parameter-scope', ['C10', 'C07'],
+                 len(pushes) == 1 if outcome[0] == 'return' or calls else len(pushes) <= 1)
         ex.prove('C10:LambdaOp.eval.f:pops-it-on-every-exit[%s]' % outcome[0], ['C10', 'C11'], len(pops) == len(pushes))
         for p in pushes:
             ex.prove('C10:LambdaOp.eval.f:parameter-scope-is-a-new-dict', ['C10', 'C07'],
